@@ -9,6 +9,7 @@ implementation / the payload and handed to the model.
 Oracles (independent of the Lean model): closed forms with scipy.special.gammaln and
 scipy.stats, brute-force neighbours in numpy, numpy's own quantile, the normal-equation residual of
 the ridge start, numeric quadrature of the implementation's density, grid maximisation."""
+import json
 import time, math
 import numpy as np
 from scipy.special import gammaln
@@ -306,9 +307,26 @@ def case_prep(ctx, res, p):
     res.count("prep:d=%s" % ("default" if d_arg is None else "scalar" if np.ndim(d_arg) == 0 else "per-cell"))
     sample = {"op": "prep", "X_shape": list(X.shape), "d": "default" if d_arg is None else np.ndim(d_arg) and "per-cell" or d_arg,
               "ls_factor": lsf}
+    gk = p.get("gpkw") or {}
+    kind = p.get("est", "density")
+    res.count("prep:gp=" + (json.dumps(gk, sort_keys=True) if gk else "default"))
+    res.count("prep:est=" + kind)
+    sample["gpkw"], sample["est"] = gk, kind
     try:
-        est = m.DensityEstimator(d=d_arg, ls_factor=lsf)
-        loss_func, z0 = est.prepare_inference(X)
+        kw = {k_: v_ for k_, v_ in gk.items() if k_ != "lm"}
+        if kind == "time":
+            # three time points in the last column; the spatial part keeps its shape
+            Xt = np.c_[X if X.ndim == 2 else X[:, None], (np.arange(n) % 3).astype(float)]
+        if "lm" in gk:
+            X2 = (X if X.ndim == 2 else X[:, None]) if kind != "time" else Xt
+            mm = int(gk["lm"])
+            kw["landmarks"] = (X2[:mm] + 0.05) if mm <= n else np.vstack([X2, X2[:mm - n] + 0.07])
+        if kind == "time":
+            est = m.TimeSensitiveDensityEstimator(d=d_arg, ls_factor=lsf, ls_time=1.5, **kw)
+            loss_func, z0 = est.prepare_inference(Xt)
+        else:
+            est = m.DensityEstimator(d=d_arg, ls_factor=lsf, **kw)
+            loss_func, z0 = est.prepare_inference(X)
         nn = np.asarray(est.nn_distances, float)
         L = np.asarray(est.L, float)
         z0 = np.asarray(z0, float)
@@ -327,8 +345,9 @@ def case_prep(ctx, res, p):
             if out != f"ok {int(d)}":
                 res.corr_fail("model and implementation d differ", p, detail={"impl": repr(d), "model": out})
     dv = np.asarray(d, float) if np.ndim(d) else float(d)
-    check_nn(ctx, res, p, "prep", X, 1, nn[:, None])
-    check_mu_ls(ctx, res, p, "prep", nn, dv, mu, ls, lsf)
+    if kind != "time":     # the per-time-point distances and their length scale are C14's subject
+        check_nn(ctx, res, p, "prep", X, 1, nn[:, None])
+        check_mu_ls(ctx, res, p, "prep", nn, dv, mu, ls, lsf)
     t = o_mle(nn, np.asarray(dv, float) * np.ones(n)) - mu
     check_ridge(ctx, res, p, "prep", z0, L, t,
                 f"c03init {n} {L.shape[1]} {bits(nn)} {dim_tokens(dv, n)} {fbit(mu)} {bits(L)}")
@@ -342,7 +361,7 @@ def case_prep(ctx, res, p):
             res.oracle_fail(f"loss_func raised {type(e).__name__}: {e}", p, signature="C03:loss-raises")
             continue
         finite &= check_loss(ctx, res, p, "prep", v, nn, dv, mu, L, z0.shape[0], z)
-    res.case(("prep", X.tobytes(), repr(d_arg), lsf, p.get("zseed")), bool(finite and n >= 2), sample)
+    res.case(("prep", kind, json.dumps(gk, sort_keys=True), X.tobytes(), repr(d_arg), lsf, p.get("zseed")), bool(finite and n >= 2), sample)
 
 
 def case_dimprep(ctx, res, p):
@@ -359,6 +378,12 @@ def case_dimprep(ctx, res, p):
     try:
         kw_ = {} if p.get("mu_dim") is None else {"mu_dim": float(p["mu_dim"])}
         res.count("dimprep:mu_dim=" + ("default" if not kw_ else "given"))
+        gk = p.get("gpkw") or {}
+        res.count("dimprep:gp=" + (json.dumps(gk, sort_keys=True) if gk else "default"))
+        kw_.update({k_: v_ for k_, v_ in gk.items() if k_ != "lm"})
+        if "lm" in gk:
+            mm = int(gk["lm"])
+            kw_["landmarks"] = (X[:mm] + 0.05) if mm <= n else np.vstack([X, X[:mm - n] + 0.07])
         est = m.DimensionalityEstimator(k=k, d=d_arg, **kw_)
         loss_func, z0 = est.prepare_inference(X)
         dist = np.asarray(est.distances, float)
@@ -668,6 +693,14 @@ def gen_d(rng, n):
     return np.exp(rng.uniform(np.log(0.5), np.log(50.0), size=n)), False
 
 
+def gpkw_menu(n):
+    """Non-default Gaussian-process configurations: the latent size differs from n and / or from n_landmarks."""
+    return [{"gp_type": "full_nystroem", "rank": 5}, {"gp_type": "full_nystroem", "rank": 0.8},
+            {"lm": 6, "gp_type": "sparse_cholesky"}, {"lm": 7, "gp_type": "sparse_nystroem", "rank": 3},
+            {"lm": 7, "gp_type": "sparse_nystroem", "rank": 0.8}, {"n_landmarks": 0}, {"lm": n + 2},
+            {"gp_type": "fixed", "n_landmarks": n + 3}, {"n_landmarks": 5}]
+
+
 def gen_prep(rng, shape=None, menu=None):
     menu = menu or PREP_SHAPES
     n, f = shape or menu[int(rng.integers(len(menu)))]
@@ -766,6 +799,15 @@ def run(ctx, res):
         run_case(ctx, res, gen_prep(rng, sh))
     for _ in range(2 if quick else 6):
         run_case(ctx, res, gen_dimprep(rng, quick))
+    # the objective under every GP configuration (latent size != n, != n_landmarks), all three estimators
+    gm = gpkw_menu(16)
+    for i, gk in enumerate(gm):
+        run_case(ctx, res, {**gen_prep(rng, (16, 2)), "gpkw": gk})
+        if not quick or i % 3 == 0:
+            run_case(ctx, res, {**gen_prep(rng, (16, 2)), "gpkw": gk, "est": "time"})
+        if not quick or i % 3 == 1:
+            run_case(ctx, res, {**gen_dimprep(rng, quick), "gpkw": gk})
+    run_case(ctx, res, {**gen_prep(rng, (16, 2)), "est": "time"})
     for shape in ([7], [7, 1], [5, 3], [4, 20], [3, 50], [3, 51], [2, 64], [2, 3, 4]):
         run_case(ctx, res, {"op": "dshape", "shape": shape})
     run_case(ctx, res, {"op": "nn", "X": rng.normal(size=(1, 2)), "k": 1})
